@@ -62,7 +62,7 @@ def oracle(ctx, seeds=None):
         else:
             a = float(rng.choice([1.0, -1.0, 2.5, -0.6])); mod = impl.convection.model(a)
         if first and not burg:
-            md = cfg1d.rand_faces(rng, n, str(rng.choice(['uni', 'refined', 'faces'])))
+            md = cfg1d.rand_faces(rng, n, str(rng.choice(['uni', 'refined', 'faces', 'morphed', 'morphed'])))
             cfl = float(rng.choice([1.0, 0.9, 0.5, rng.uniform(0.05, 1.0)]))
             sch = ['extrapol1']; integ = 'explicit'
         else:
